@@ -245,6 +245,10 @@ def drive(prop, tier, seed, nshards):
                 pass
             problems.append('shard %s: rc=%s %s' % (os.path.basename(out),
                                                     rc, tail))
+    import glob
+    for old in glob.glob(os.path.join(env.OUT, 'replay',
+                                      '%s-%s-*.json' % (prop, seed))):
+        os.unlink(old)
     m = merge(dumps)
     for pr in problems:
         m['inconclusive'].append(pr)
@@ -317,6 +321,8 @@ def drive(prop, tier, seed, nshards):
                                              v['occurrences'] or 1))
             if i >= 25:
                 break
+        for r in m['inconclusive'][:5]:
+            print('INCONCLUSIVE property=%s reason=%s' % (prop, r[:600]))
         print('%s: %d violations (%d mechanisms) in %d evaluations, %.1fs'
               % (prop, sum(unknown_mechs.values()), len(unknown_mechs),
                  m['evaluations'], wall))
